@@ -73,6 +73,12 @@ func cellChange(exp, got string) string {
 		}
 	}
 	out := ""
+	if len(lost) > 2 {
+		lost = []string{"many"}
+	}
+	if len(gained) > 2 {
+		gained = []string{"many"}
+	}
 	if len(lost) > 0 {
 		out += "lost-" + strings.Join(lost, "+")
 	}
@@ -108,6 +114,14 @@ func diffLabel(exp, got stream) string {
 		if isPermutation(exp[i], got[i]) {
 			return "field-order"
 		}
+		if g, ok := reorderLike(exp[i], got[i]); ok {
+			// the same names in another order, and something else on top: name both
+			for j := range exp[i] {
+				if exp[i][j].V != g[j].V {
+					return "field-order+value/" + cellChange(exp[i][j].V, g[j].V)
+				}
+			}
+		}
 		for j := range exp[i] {
 			if exp[i][j].K != got[i][j].K {
 				return "key/" + cellChange(exp[i][j].K, got[i][j].K)
@@ -142,6 +156,34 @@ func isPermutation(a, b rec) bool {
 		}
 	}
 	return false
+}
+
+// reorderLike: got rearranged into exp's key order, when got has exactly the
+// keys of exp in a different order.
+func reorderLike(exp, got rec) (rec, bool) {
+	if len(exp) != len(got) {
+		return nil, false
+	}
+	byKey := map[string]kv{}
+	for _, f := range got {
+		byKey[f.K] = f
+	}
+	if len(byKey) != len(got) {
+		return nil, false
+	}
+	out := make(rec, len(exp))
+	moved := false
+	for i, f := range exp {
+		g, ok := byKey[f.K]
+		if !ok {
+			return nil, false
+		}
+		out[i] = g
+		if got[i].K != f.K {
+			moved = true
+		}
+	}
+	return out, moved
 }
 
 // streamSymbols: the one special symbol of the stream when there is exactly
@@ -1071,11 +1113,16 @@ func run(c *vf.Ctx) {
 	c.Rule = fmt.Sprintf("every record stream of the canonical families (one nasty cell of <= %d symbols over an 18-symbol alphabet at every position of 1- and 3-field records; all pairs of one-symbol cells; 2-record streams; every pair of records over keys {a,b,c} x values {x,empty,-}; positional-key twins; header-join collisions; 11/12/13-field records) x every format/option variant, through the real writer and reader. A case counts as distinct non-trivial when the stream is inside the variant's documented domain and has a cell with a non-letter symbol, >= 2 records or >= 12 fields; distinct streams are counted once per variant", maxLen)
 	c.Assume("cells longer than the bound and Unicode beyond one 2-byte letter and one invalid byte are not explored")
 	c.Assume("records with zero fields are not enumerated")
-	c.Assume("round trip is asserted only inside each variant's domain predicate (formats.go, written from file-formats.md / reference-main-separators.md); outside it only idempotence of cat on its own output (cat(cat(t)) == cat(t)) is asserted; the strong form cat(t) == t is asserted when the round trip held")
-	c.Assume("JSON/YAML: invalid UTF-8 and number-like values whose spelling is not an RFC 8259 number (0x1F, +1, 1., .5, -0, Inf) are outside the byte-exact domain (JSON cannot carry them; the writer documents re-rendering)")
-	c.Assume("DKVPX/XTAB/PPRINT empty keys, and a markdown/PPRINT-barred cell with outer white space, are outside the domain (documentation silent / trimmed by design)")
-	c.Assume("comment handling flags, compressed input, --ifs-regex/--ips-regex, --repifs on formats other than NIDX/PPRINT, fixed-width PPRINT input, colourised output, DCF and recutils are not covered")
-	c.Assume("direct writer/reader calls use the option structs climain.ParseCommandLine returns for `mlr <flags> cat`; a separate pass compares them with the full in-process command line on a subset")
+	c.Assume("round trip read(write(R)) == R is asserted only inside each variant's domain predicate (formats.go, written from file-formats.md / reference-main-separators.md / new-in-miller-6.md); both sides of every predicate are counted per reason")
+	c.Assume("idempotence: cat(t) == t is asserted whenever the round trip held; cat(cat(t)) == cat(t) is asserted for every stream whose first pass produced records that are inside the domain; when the first pass produced records outside the domain (e.g. a cell still ending in CR) a further change is the format's documented ambiguity and is counted as unconstrained, not asserted")
+	c.Assume("JSON/YAML: invalid UTF-8 and number-like values whose spelling is not an RFC 8259 number (0x1F, +1, 1., .5, Inf) or that ints re-render (-0) are outside the byte-exact domain (JSON cannot carry them; the writer documents re-rendering)")
+	c.Assume("a one-column record whose cell is empty (an empty line) is outside the domain of TSV and the CSV-lite family (indistinguishable from a blank line; documentation silent); it is inside the domain of CSV")
+	c.Assume("NIDX default IFS splits on spaces and tabs (new-in-miller-6.md); DKVPX/XTAB/PPRINT empty keys, and a markdown/PPRINT-barred cell with outer white space, are outside the domain (documentation silent / trimmed by design)")
+	c.Assume("standard-dialect oracle, foreign-text direction: all subsets of optionally quoted CSV cells when there are at most 3 (quick) / 8 (thorough) of them, else none/all/each-single; LF and CRLF, final newline present/absent; TSV with always-escaped and minimally-escaped backslashes; JSON in 40 (1-field records, thorough) or 8 covering escape/white-space/wrapping styles")
+	c.Assume("chunking oracle: every split into 2 and 3 reads of every text of at most 26 (quick) / 40 (thorough) bytes from a fixed per-variant list of streams; longer texts are only read whole (counted as text-longer-than-bound)")
+	c.Assume("BOM stripping is asserted for CSV and CSV-lite (the readers that document/intend it); for other formats only independence from the chunking is asserted on BOM-prefixed text")
+	c.Assume("comment handling flags, compressed input, --ifs-regex/--ips-regex, --repifs on formats other than NIDX/PPRINT, fixed-width PPRINT input, markdown/PPRINT implicit headers, colourised output, DCF and recutils are not covered")
+	c.Assume("direct writer/reader calls use the option structs climain.ParseCommandLine returns for `mlr <flags> cat`; a separate pass compares them with the full in-process command line (`mlr <flags> cat file`, `mlr <flags> --ijson cat file`) on a subset and checks the documented default separators")
 
 	// distinct non-trivial cases by the rule, computed over the same enumeration
 	distinct := int64(0)
@@ -1187,7 +1234,7 @@ func run(c *vf.Ctx) {
 	c.Extra["chunking_and_binding"] = chunk
 	c.Extra["informational_cpu_time_in_miller_calls"] = times
 	// vacuity: every symbol must have been exercised inside the domain of at least one format, in keys and in values
-	var never []string
+	never := []string{}
 	for _, sy := range append(append([]string{}, sigma...), "") {
 		name := sigmaNames[sy]
 		for _, kind := range []string{"key", "value"} {
